@@ -173,6 +173,37 @@ def run(F, R):
         R.check(bounded, "R12.2", "unbounded-recursion:builder:" + n, bs[0].where() if bs else "-", "depth budget parameter present",
                 "the recursive builder for `%s` carries no depth budget" % n)
 
+    R.rule("R12.4", "fragment cycles cannot make the pre-validation walkers recurse forever: every recursive call of check_recursive_depth's walker passes "
+                    "current_depth + 1 (a spread-only cycle therefore hits the limit), and the directive walker runs only after it")
+    from common import const_eval
+    rd = F.one(r"async_graphql::schema::check_recursive_depth::check_selection_set$", kind="fn")
+    rec = rd.calls_to(r"schema::check_recursive_depth::check_selection_set$")
+    okr = bool(rec)
+    for c in rec:
+        o, passed = trace(rd, c.args[2])
+        inc = False
+        for bb, st in rd.defs_of_local(c.args[2][1][0]) if c.args[2][0] in ("c", "m") else []:
+            rr = st[1]
+            if rr[0] == "use" and rr[1][0] in ("c", "m") and len(rr[1][1]) == 2 and rr[1][1][1] == ".0":
+                for bb2, st2 in rd.defs_of_local(rr[1][1][0]):
+                    r2 = st2[1]
+                    if r2[0] == "bin" and r2[1].startswith("Add") and const_eval(rd, r2[3]) == 1:
+                        inc = True
+            if rr[0] == "bin" and rr[1].startswith("Add") and const_eval(rd, rr[3]) == 1:
+                inc = True
+        okr = okr and inc
+    R.check(okr, "R12.4", "check_recursive_depth:every-recursion-increments-depth", rd.where(), "%d recursive calls, each with depth + 1" % len(rec),
+            "a recursive call of the depth walker does not increase the depth: a fragment cycle made only of spreads recurses until the stack overflows")
+    prs = [b for b in F.find(r"async_graphql::schema::prepare_request::\{closure#0\}::\{closure#\d+\}$")]
+    okd = False
+    for b in prs:
+        a = b.calls_to(r"schema::check_recursive_depth$")
+        d = b.calls_to(r"schema::check_max_directives$")
+        if a and d and all(b.dominates(x.bb, y.bb) for x in a for y in d):
+            okd = True
+    R.check(okd, "R12.4", "prepare_request:depth-walk-before-directive-walk", prs[0].where() if prs else "-", "check_recursive_depth dominates check_max_directives",
+            "check_max_directives (which has no depth bound of its own) can run before the recursion-depth check")
+
     R.rule("R12.3", "the recursion check precedes validation (= C11 R11.2)")
     prep = F.one(r"async_graphql::schema::prepare_request::\{closure#0\}$")
     pq = prep.calls_to(r"extensions::\{impl#\d+\}::parse_query$")
